@@ -18,6 +18,10 @@ def run(rep):
     fw.standin(rep, 's_share.py', ['run', rep.seed, 760],
                'two simultaneously suspended uses of one non-ground fact (all interleavings) vs each use alone; compiled conjunction',
                '9 fact shapes x 9 constant choices x 5 schedules: exhaustive for this family')
+    fw.standin(rep, 's_c13.py', ['run', rep.seed, 0],
+               'facts that differ only in their variable-sharing pattern are stored independently (either order, retract between); a '
+               'term holding a variable that is itself the product of a copy is asserted and the variable bound afterwards',
+               '4 skeletons x all pairs of sharing patterns x 4 assertion ways x 2 + 6 variable sources x 4 places x 3 ways: exhaustive')
     rep.notes.append('assert_fact stores fresh_copy(values) = rename(resolve(values)); Answer.match unifies with a fresh copy per use; '
                      'L-RN-FRESH: every variable of a fresh copy is new (id >= allocation counter), so a stored fact shares no cell '
                      'with the caller and two uses share none with each other')
